@@ -25,7 +25,11 @@ def showQueues (n : Node) : String :=
   "qs=[" ++ String.intercalate ";" (sortS (n.queues.map one)) ++ "]"
 
 def step (n : Node) (line : String) : Node × String :=
-  match words line with
+  -- `pubd` = `pub` with DUP=1 on the client's PUBLISH: the flag says the CLIENT sent the packet before, routing is the same
+  let ws := match words line with
+    | "pubd" :: rest => "pub" :: rest
+    | l => l
+  match ws with
   | ["new", self] => ({ recv := Recv.new self, locals := [], sent := [], queues := [] }, "ok")
   | ["peer", p] =>
     if p == n.recv.self || n.recv.peers.contains p then (n, "ok")
